@@ -15,6 +15,7 @@ import (
 	"sync"
 	"testing"
 	"testing/synctest"
+	"time"
 	"unicode/utf16"
 
 	"github.com/creachadair/jrpc2"
@@ -197,7 +198,12 @@ func TestDispatch(t *testing.T) {
 				mux := r.build(&tab.Muxes[mi], "")
 				rec := &vh.Recorder{}
 				ch := vh.NewVChan("d", rec, false)
-				r.srv = jrpc2.NewServer(spy{r, mux}, &jrpc2.ServerOptions{DisableBuiltin: !builtin, Concurrency: 2})
+				// (half of the servers are told when they started: that is then what rpc.serverInfo reports, in every run of the server)
+				var startTime time.Time
+				if mi%2 == 0 {
+					startTime = time.Date(2020, 2, 29, 12, 30, 0, 0, time.UTC)
+				}
+				r.srv = jrpc2.NewServer(spy{r, mux}, &jrpc2.ServerOptions{DisableBuiltin: !builtin, Concurrency: 2, StartTime: startTime})
 				r.srv.Start(ch)
 				nout := 0
 				feed := func(txt string) ([]seen, [][]byte, []string) {
@@ -418,6 +424,35 @@ func TestDispatch(t *testing.T) {
 				}
 				ch.PeerClose()
 				r.srv.Wait()
+				// the same server once more, on a fresh channel: the same methods, and the start time it was given
+				if builtin && mi%nshard == shard {
+					for run := 2; run <= 3; run++ {
+						ch2 := vh.NewVChan(fmt.Sprint("d", run), rec, false)
+						r.srv.Start(ch2)
+						ch2.Push([]byte(`{"jsonrpc":"2.0","id":"again","method":"rpc.serverInfo"}`), nil)
+						synctest.Wait()
+						ch2.Lock()
+						outs := append([][]byte(nil), ch2.Out...)
+						ch2.Unlock()
+						var rsp struct {
+							Result struct {
+								Methods   []string  `json:"methods"`
+								StartTime time.Time `json:"startTime"`
+							} `json:"result"`
+						}
+						res.Evaluations++
+						cell := Cell{Mux: mi + 1, Builtin: builtin, Name: []string{"rpc", "serverInfo"}}
+						if len(outs) != 1 || json.Unmarshal(outs[0], &rsp) != nil {
+							add(cell, fmt.Sprintf("run %d of the server: outputs %q, want a server info result", run, outs))
+						} else if fmt.Sprint(rsp.Result.Methods) != fmt.Sprint(want) {
+							add(cell, fmt.Sprintf("run %d of the server: methods %q, want %q", run, rsp.Result.Methods, want))
+						} else if !startTime.IsZero() && !rsp.Result.StartTime.Equal(startTime) {
+							add(cell, fmt.Sprintf("run %d of the server: start time %v, the server was given %v", run, rsp.Result.StartTime, startTime))
+						}
+						ch2.PeerClose()
+						r.srv.Wait()
+					}
+				}
 			}
 		}
 	})
